@@ -5,6 +5,7 @@ import (
 	"errors"
 	"fmt"
 	"io"
+	"strings"
 	"time"
 
 	"google.golang.org/grpc"
@@ -370,6 +371,13 @@ func (s *Session) clientOp(r *rpcState, a *actor, st Step) {
 		m := new(wrapperspb.BytesValue)
 		err := r.cs.RecvMsg(m)
 		f := errFields(tr.E{}, err)
+		if isDecodeErr(err) {
+			// the message arrived but its bytes are not a valid payload (raw peers):
+			// not a terminal result of the RPC
+			f["cls"] = "garbled"
+			s.opRet(a, st, f)
+			return
+		}
 		if err == nil {
 			id := Identify(m, r.n, "s", r.gotC)
 			r.gotC++
@@ -409,6 +417,16 @@ func (s *Session) clientOp(r *rpcState, a *actor, st Step) {
 		s.opStart(a, st, nil)
 		s.opRet(a, st, errFields(tr.E{}, fmt.Errorf("unknown op %q", st.Op)))
 	}
+}
+
+func isDecodeErr(err error) bool {
+	if err == nil {
+		return false
+	}
+	if _, ok := status.FromError(err); ok {
+		return false
+	}
+	return strings.HasPrefix(err.Error(), "proto:")
 }
 
 func identFields(id Ident) tr.E {
